@@ -253,7 +253,7 @@ fn proc_step(ev: u8, focus: u8) {
     let ttl_class = if ev == EV_TICK { 2 } else { 0 };
     // a New item is the most expensive event (admission + evictions): one resident by default,
     // two with --cfg verif_victims2 (thorough tier)
-    let n_max = if ev == EV_NEW && !cfg!(verif_victims2) { 1 } else { 2 };
+    let n_max = if (ev == EV_NEW || ev == EV_TICK) && !cfg!(verif_victims2) { 1 } else { 2 };
     let (mut p, a, b, ents) = any_parked_n(TransparentKeyBuilder::<u64>::default(), ttl_class, cfg, Some(true), n_max);
     let k = nd::any_u64();
     let resident_before = raw(&p.store, k);
@@ -371,7 +371,7 @@ fn proc_step(ev: u8, focus: u8) {
                 }
             }
         }
-        vcover!(p.cb.all() == 2, "[tick] two entries reclaimed by one tick");
+        vcover!(p.cb.all() >= 1, "[tick] an entry reclaimed by the tick");
         vcover!(p.cb.all() == 0 && a.is_some(), "[tick] nothing reclaimed");
     }
     // invariants after the event
@@ -1034,5 +1034,148 @@ cache_harness! {
         vassert!(ka.wrapping_sub(ke) == policy_len(&p.policy) as u64, "keys_added - keys_evicted equals the number of charged entries");
         vassert!(ca.wrapping_sub(ce) == policy_used(&p.policy) as u64, "cost_added - cost_evicted equals the charged total");
         std::mem::forget(p);
+    }
+}
+
+fn probe_new(n_max: usize, with_ttl: bool) {
+    let cfg = any_cfg();
+    let (mut p, _a, _b, _ents) = any_parked_n(TransparentKeyBuilder::<u64>::default(), 0, cfg, Some(true), n_max);
+    let k = nd::any_u64();
+    let cost = nd::any_i64_in(0, COST_MAX);
+    let d = if with_ttl { any_duration(4) } else { Duration::ZERO };
+    let item = Item::New { key: k, conflict: 0, cost, value: 2, expiration: time_at(clock::get(), d) };
+    let r = p.proc_.handle_insert_event(Ok(item));
+    vassert!(r.is_ok(), "handling a New item does not fail");
+    vassert!(p.sp_ok(k), "I-SP: the addressed key is resident iff it is charged");
+    vcover!(raw(&p.store, k).is_some(), "admitted");
+    std::mem::forget(p);
+}
+cache_harness! {
+    [kani::unwind(6)]
+    fn probe_new_n0_nottl() {
+        probe_new(0, false);
+    }
+}
+cache_harness! {
+    [kani::unwind(6)]
+    fn probe_new_n0_ttl() {
+        #[cfg(kani)]
+        unsafe {
+            crate::policy::verif_harness::psync::CONTRACT_TRIVIAL = true;
+        }
+        probe_new(0, true);
+    }
+}
+cache_harness! {
+    [kani::unwind(6)]
+    fn probe_new_n1_nottl() {
+        probe_new(1, false);
+    }
+}
+
+fn probe_parts(part: u8) {
+    let cfg = any_cfg();
+    let (p, _a, _b, _ents) = any_parked_n(TransparentKeyBuilder::<u64>::default(), 0, cfg, Some(true), 0);
+    let k = nd::any_u64();
+    let cost = nd::any_i64_in(0, COST_MAX);
+    if part == 1 {
+        let (v, added) = p.policy.add(k, cost);
+        vassert!(!added || p.policy.contains(&k), "added => charged");
+        vcover!(added, "admitted");
+        std::mem::forget(v);
+    } else if part == 2 {
+        let r = p.store.try_insert(k, 2, 0, time_at(clock::get(), Duration::ZERO));
+        vassert!(r.is_ok() && raw(&p.store, k).is_some(), "inserted");
+        vcover!(true, "inserted");
+    } else if part == 3 {
+        let r = p.store.try_remove(&k, 0);
+        vassert!(r.is_ok() && raw(&p.store, k).is_none(), "removed");
+        vcover!(true, "removed");
+    } else {
+        p.cb.on_reject(crate::Item { val: Some(2), index: k, conflict: 0, cost, exp: time_at(clock::get(), Duration::ZERO) });
+        vassert!(p.cb.rejects(2) == 1, "callback");
+        vcover!(true, "callback");
+    }
+    std::mem::forget(p);
+}
+cache_harness! { [kani::unwind(6)] fn probe_part1() { probe_parts(1); } }
+cache_harness! { [kani::unwind(6)] fn probe_part2() { probe_parts(2); } }
+cache_harness! { [kani::unwind(6)] fn probe_part3() { probe_parts(3); } }
+cache_harness! { [kani::unwind(6)] fn probe_part4() { probe_parts(4); } }
+
+// ------------------------------------------------------------------------------------------------
+// Wiring of the processor's New arm (C06, C08, C16): for EVERY outcome of the policy (arbitrary
+// verdict, arbitrary victim list) and every answer of the store, which store operations and
+// callbacks does `handle_item(New)` issue? The store operations and the policy's bookkeeping
+// themselves are decided by their own step lemmas; composed with this harness they give I-SP,
+// the callback accounting and the cost reporting for the New event.
+// ------------------------------------------------------------------------------------------------
+#[cfg(kani)]
+fn new_wiring() {
+    use crate::policy::verif_harness::psync as ps;
+    use crate::store::verif_harness::storerec as sr;
+    let mut cfg = any_cfg();
+    cfg.metrics = true;
+    let (mut p, _a, _b, _ents) = any_parked_n(TransparentKeyBuilder::<u64>::default(), 0, cfg, Some(true), 0);
+    unsafe {
+        ps::CONTRACT_WIRING = true;
+        ps::ADD_CALLS = 0;
+    }
+    sr::reset();
+    let k = nd::any_u64();
+    let conflict = nd::any_u64();
+    let cost = nd::any_i64_in(0, COST_MAX);
+    let d = any_duration(4);
+    let isz = if cfg.ignore_internal_cost { 0 } else { p.item_size() };
+    let item = Item::New { key: k, conflict, cost, value: 2, expiration: time_at(clock::get(), d) };
+    let r = p.proc_.handle_insert_event(Ok(item));
+    vassert!(r.is_ok(), "handling a New item does not fail");
+    unsafe {
+        vassert!(ps::ADD_CALLS == 1 && ps::ADD_KEY == k, "the policy is asked exactly once, for the item's key");
+        vassert!(ps::ADD_COST == cost + isz, "the charge handed to the policy is the given cost plus the internal overhead unless ignored");
+        let added = ps::ADD_OUT_ADDED;
+        if added {
+            vassert!(sr::INSERTS == 1 && sr::INS_KEY == k && sr::INS_CONFLICT == conflict && sr::INS_VAL == 2 && sr::INS_TTL_SECS == d.as_secs(), "an admitted item is stored exactly once with its key, conflict, value and deadline");
+            vassert!(p.cb.total(2) == 0, "an admitted value is not handed to any callback");
+            vassert!(mrec::get(&p.metrics, MetricType::KeyAdd) == 1, "keys_added counts the admission");
+        } else {
+            vassert!(sr::INSERTS == 0, "a refused item is not stored");
+            vassert!(p.cb.rejects(2) == 1 && p.cb.total(2) == 1, "a refused value is handed to on_reject exactly once");
+            vassert!(p.cb.cost_of(2) == cost + isz && p.cb.index_of(2) == k, "the cost reported to on_reject is the charged cost");
+            vassert!(mrec::get(&p.metrics, MetricType::KeyAdd) == 0, "keys_added does not count a refusal");
+        }
+        // victims: whatever the verdict, every victim the policy un-charged is removed from the store
+        let n = ps::ADD_OUT_N;
+        vassert!(sr::REMOVES == n, "every victim reported by the policy - and nothing else - is removed from the store, whether or not the newcomer was admitted");
+        let mut evicted = [0u8; 2];
+        let mut i = 0;
+        while i < n {
+            vassert!(sr::REM_KEYS[i] == ps::ADD_OUT_KEYS[i] && sr::REM_CONFLICTS[i] == 0, "victims are removed by index hash, in the reported order");
+            if sr::REM_FOUND[i] {
+                evicted[sr::REM_VALS[i] as usize] += 1;
+            }
+            i += 1;
+        }
+        vassert!(p.cb.evicts(0) == evicted[0] && p.cb.evicts(1) == evicted[1], "every victim found in the store is handed to on_evict exactly once");
+        vassert!(p.cb.exits(0) + p.cb.exits(1) + p.cb.rejects(0) + p.cb.rejects(1) == 0, "victims go to on_evict only");
+        if n >= 1 && sr::REM_FOUND[n - 1] {
+            let t = sr::REM_VALS[n - 1];
+            vassert!(p.cb.cost_of(t) == ps::ADD_OUT_COSTS[n - 1] && p.cb.index_of(t) == ps::ADD_OUT_KEYS[n - 1], "the cost reported to on_evict is the victim's charged cost");
+        }
+        vcover!(!added && n == 2 && sr::REM_FOUND[0] && sr::REM_FOUND[1], "[new] rejected after two evictions");
+        vcover!(added && n == 1, "[new] admitted with one victim");
+        vcover!(added && n == 0, "[new] admitted without victims");
+        ps::CONTRACT_WIRING = false;
+    }
+    std::mem::forget(p);
+}
+
+cache_harness! {
+    [kani::unwind(6),
+     kani::stub(crate::store::ShardedMap::try_insert, crate::store::verif_harness::storerec::try_insert),
+     kani::stub(crate::store::ShardedMap::try_remove, crate::store::verif_harness::storerec::try_remove)]
+    fn c06_new_wiring() {
+        #[cfg(kani)]
+        new_wiring();
     }
 }
